@@ -1,6 +1,7 @@
 package main
 
 import (
+	"context"
 	"fmt"
 	"github.com/lugu/qiloop/type/object"
 	"io/ioutil"
@@ -262,6 +263,9 @@ func childSessionStress(a []string) string {
 					} else {
 						proxy, err = sess.Proxy(name, 1)
 					}
+					if err != nil && wide && strings.Contains(err.Error(), "consumer blocked") {
+						continue // the bounded queues of the server (session.flood, a listed finding): not the subject here
+					}
 					if err != nil {
 						errs <- "proxy:" + name + ":" + err.Error()
 						return
@@ -271,6 +275,9 @@ func childSessionStress(a []string) string {
 					}
 					arg := fmt.Sprintf("g%d", g)
 					got, err := pong.MakePingPong(sess, proxy).Hello(arg)
+					if err != nil && wide && strings.Contains(err.Error(), "consumer blocked") {
+						continue
+					}
 					if err != nil {
 						errs <- "call:" + err.Error()
 					} else if got != "echo:"+name+"/"+arg {
@@ -279,6 +286,39 @@ func childSessionStress(a []string) string {
 					}
 				}
 			}(g, name)
+		}
+		if wide {
+			// goroutines that give up their calls (a context that is cancelled while the call is on its way): whatever
+			// becomes of those calls, the requests of the others succeed
+			for c := 0; c < 3; c++ {
+				wg.Add(1)
+				go func(c int) {
+					defer wg.Done()
+					<-start
+					proxy, err := sess.Proxy(names[1], 1)
+					for tries := 0; err != nil && strings.Contains(err.Error(), "consumer blocked") && tries < 50; tries++ {
+						time.Sleep(time.Millisecond)
+						proxy, err = sess.Proxy(names[1], 1)
+					}
+					if err != nil {
+						errs <- "proxy:" + names[1] + ":" + err.Error()
+						return
+					}
+					// how long a call takes here, so that the cancel requests fall around the arrival of the answers
+					t0 := time.Now()
+					for i := 0; i < 20; i++ {
+						pong.MakePingPong(sess, proxy).Hello("m")
+					}
+					rtt := time.Since(t0) / 20
+					for i := 0; i < 600; i++ {
+						ctx, cancel := context.WithCancel(context.Background())
+						p := pong.MakePingPong(sess, proxy).WithContext(ctx)
+						go func(d time.Duration) { time.Sleep(d); cancel() }(rtt/2 + time.Duration(i%50)*rtt/50)
+						p.Hello("c") // answered or given up
+						time.Sleep(150 * time.Microsecond) // the server's queues are bounded (a listed finding): no flood here
+					}
+				}(c)
+			}
 		}
 		close(start)
 		done := make(chan struct{})
@@ -520,6 +560,13 @@ func runC19(r *Rand, tier string, o *Out) {
 	cases := [][2]int{{2, 6}, {8, 6}, {32, 3}}
 	if tier == "thorough" {
 		cases = [][2]int{{2, 40}, {4, 30}, {8, 30}, {16, 20}, {32, 15}, {64, 6}}
+	}
+	// the client a session shares per endpoint: a caller that gives up its call while another caller's call is under way
+	for i := 0; i < 3; i++ {
+		if out := o.Do("P", "c04.cancelcross", true); out != "ok" {
+			o.Fail("calls that share the session's client: "+strings.SplitN(strings.TrimPrefix(out, "fail:"), ":", 2)[0], "c04.cancelcross => "+out)
+		}
+		o.Count("shared-client:cancel-crosses-answer")
 	}
 	// requests repeated while connections to other endpoints are being made, one endpoint behind a long address list
 	wides := [][2]int{{14, 2}}
